@@ -53,7 +53,7 @@ def float_args(t, rng):
     if r < 0.6:
         return rng.choice([0.0, 1.5, -2.25, 3, 1e30, -1e30, float('inf')])
     if r < 0.8:
-        return rng.choice([1e40, -1e40, 10 ** 40, 3.5e38])     # too large for r32, fine for r64
+        return rng.choice([1e40, -1e40, 3.5e38])     # too large for r32, fine for r64 (ints that a double cannot hold exactly are not generated: list.remove compares the stored object)
     return rng.choice(['x', None, b'a', [1]])
 
 
